@@ -17,7 +17,7 @@ SHARDS = {"quick": 8, "thorough": 16}
 RULE = ("a settable state (power, mode 1..6, setpoint 13.0..43.5 step 0.5, fan 0..127, swing, eco, turbo, sleep, Fahrenheit, "
         "freeze protection, follow-me, purifier, target humidity 0..127, aux mode, beep) is written through AirConditioner "
         "setters + apply() (or, for a share of the cases, as setting=value arguments of `msmart-ng control`) to a model device whose 0x40 decoder follows the vendor Lua layout (and through SetStateCommand "
-        "directly for all 16 raw swing nibbles), on a fresh client, after get_capabilities() against two capability profiles (one without custom fan speeds), or after a refresh from a unit whose state reports are short (16..21 bytes) or have every unmodelled bit of bytes 8..10 set, with or without property-protocol settings pending in the same apply(), while the object is otherwise idle or while an earlier refresh()/apply() of the same object is still awaiting its answer, through the canonical attributes or the deprecated alias attributes (eco_mode, turbo_mode, sleep_mode, freeze_protection_mode); the decoded body must equal the request field by field, vendor-fixed constants must "
+        "directly for all 16 raw swing nibbles), on a fresh client, against a busy unit whose answer to the command reports its old state (alone, before or after the new report; apply() must leave the unit with one command: the requested one), after get_capabilities() against two capability profiles (one without custom fan speeds), or after a refresh from a unit whose state reports are short (16..21 bytes) or have every unmodelled bit of bytes 8..10 set, with or without property-protocol settings pending in the same apply(), while the object is otherwise idle or while an earlier refresh()/apply() of the same object is still awaiting its answer, through the canonical attributes or the deprecated alias attributes (eco_mode, turbo_mode, sleep_mode, freeze_protection_mode); the decoded body must equal the request field by field, vendor-fixed constants must "
         "hold (0x40, mobile-client bit, timers off, swing high bits 0x30, undefined bits clear), and no two different states may "
         "share a body. Per-field exhaustive sweeps (62 setpoints x 6 modes, 128 fan bytes, humidity 0..127, flags sharing a "
         "byte in all combinations) over two backgrounds, a greedy pairwise covering array, and Hypothesis random states. "
@@ -30,7 +30,7 @@ BASE = {"power": False, "mode": 2, "target": 24.0, "fan": 102, "swing": 0, "eco"
 FLAGS = ["power", "beep", "follow_me", "turbo", "eco", "purifier", "sleep", "fahrenheit", "freeze"]
 
 
-def _apply_and_get_body(s: dict, via: str, caps_profile=None, case_propset=0, case_aliases=False, inflight=None):
+def _apply_and_get_body(s: dict, via: str, caps_profile=None, case_propset=0, case_aliases=False, inflight=None, busy=None):
     """Returns (body bytes, model state, rejected list)."""
     from msmart.device import AirConditioner as AC
     from msmart.device.AC.command import SetStateCommand
@@ -129,7 +129,24 @@ def _apply_and_get_body(s: dict, via: str, caps_profile=None, case_propset=0, ca
                 ac.rate_select = AC.RateSelect.LEVEL_3
                 ac.breezeless = True
         n0 = len(dev.ac.control_bodies)
+        if busy:
+            # the unit takes the command but the report it answers with does not show the requested state yet (busy / just woken
+            # up: it reports the state it had before; or the report of an earlier moment arrives as well)
+            def on_data(dev_, conn, frame):
+                try:
+                    is_ctl = rc.frame_parse(frame).body[0] == 0x40
+                except Exception:
+                    is_ctl = False
+                if not is_ctl:
+                    return None
+                old = dev_.ac.state_frame(0x02)
+                if busy == "old":
+                    return ("frames", [old], {})
+                return ("answer", {"pre": [old]} if busy == "old+new" else {"post": [old]})
+            dev.on_data = on_data
         await ac.apply()
+        dev.on_data = None
+        res["during"] = [bytes(b) for b in dev.ac.control_bodies[n0:]]
         if bg is not None:
             await bg
             res["index"] = n0     # the body of the command issued by *this* apply()
@@ -138,6 +155,9 @@ def _apply_and_get_body(s: dict, via: str, caps_profile=None, case_propset=0, ca
 
     vloop.run(main, net)
     m = res["m"]
+    if busy and len(set(res["during"])) > 1:
+        # more than one command, and they differ: the last one is what the unit ends up with
+        return res["during"][-1], m.state, m.rejected + [(None, f"apply() sent {len(res['during'])} different control commands: {[b.hex() for b in res['during']]}")]
     if "index" in res:
         return (m.control_bodies[res["index"]] if len(m.control_bodies) > res["index"] else None), m.state, m.rejected
     return (m.control_bodies[-1] if m.control_bodies else None), m.state, m.rejected
@@ -149,7 +169,9 @@ _SEEN: dict = {}
 def check_case(case: dict):
     s = case["state"]
     via = case.get("via", "device")
-    body, state, rejected = _apply_and_get_body(s, via, case.get("caps"), case.get("propset", 0), case.get("aliases", False), case.get("inflight"))
+    body, state, rejected = _apply_and_get_body(s, via, case.get("caps"), case.get("propset", 0), case.get("aliases", False), case.get("inflight"), case.get("busy"))
+    if rejected and "different control commands" in str(rejected[-1][1]):
+        return ("extra-command", str(rejected[-1][1]) + f"; requested {s}")
     if rejected:
         return ("rejected", f"model device rejected the command: {rejected[0][1]}")
     if body is None:
@@ -189,7 +211,7 @@ def replay(ctx, case):
 def _run_one(ctx, case):
     s = case["state"]
     nt = s != BASE
-    ctx.case(hash((tuple(sorted(s.items())), case.get("via", "device"), case.get("caps"), case.get("propset", 0), case.get("aliases", False), case.get("inflight"))), nt, cls=case.get("cls", "state") + "/" + case.get("via", "device"))
+    ctx.case(hash((tuple(sorted(s.items())), case.get("via", "device"), case.get("caps"), case.get("propset", 0), case.get("aliases", False), case.get("inflight"), case.get("busy"))), nt, cls=case.get("cls", "state") + "/" + case.get("via", "device"))
     if case.get("caps") and case.get("via", "device") == "device":
         ctx.label(("after a short state report (" if case["caps"].startswith("short") else "after a report with all unmodelled bits set (" if case["caps"] == "noisy" else "after get_capabilities (") + case["caps"] + ")")
     if case.get("inflight") and case.get("via", "device") == "device":
@@ -268,6 +290,8 @@ def run(ctx) -> None:
                 case = dict(case, aliases=True)
             elif "via" not in case and i % 20 == 10:
                 case = dict(case, inflight=["refresh", "apply"][(i // 20) % 2])
+            elif "via" not in case and i % 20 == 15:
+                case = dict(case, busy=["old", "old+new", "new+old"][(i // 20) % 3])
             elif "via" not in case and i % 20 == 5 and case["state"]["fan"] >= 1 and case["state"]["swing"] in gens.SWING_MEMBERS:
                 case = dict(case, via="cli", propset=(i // 20) % 3)
             ctx.check(case, lambda c: _run_one(ctx, c))
@@ -277,5 +301,5 @@ def run(ctx) -> None:
     wide = st.fixed_dictionaries({"state": st.one_of(full, full.flatmap(lambda s: st.integers(0, 127).map(lambda f: dict(s, fan=f))),
                                                      full.flatmap(lambda s: st.integers(0, 127).map(lambda h: dict(s, humidity=h)))),
                                   "via": st.sampled_from(["device", "device", "device", "command", "command", "cli"]), "cls": st.just("random"),
-                                  "caps": st.sampled_from([None, "caps0", "caps1", "caps0+refresh", "short16", "short19", "short21", "noisy", "noisy"]), "propset": st.sampled_from([0, 0, 1, 2]), "aliases": st.sampled_from([False, False, True]), "inflight": st.sampled_from([None, None, None, "refresh", "apply"])})
+                                  "caps": st.sampled_from([None, "caps0", "caps1", "caps0+refresh", "short16", "short19", "short21", "noisy", "noisy"]), "propset": st.sampled_from([0, 0, 1, 2]), "aliases": st.sampled_from([False, False, True]), "inflight": st.sampled_from([None, None, None, "refresh", "apply"]), "busy": st.sampled_from([None, None, None, "old", "old+new", "new+old"])})
     ctx.hyp("random", wide, lambda c: _run_one(ctx, c), ctx.n(2500, 320000))
